@@ -169,7 +169,10 @@ def run(ck):
         ck.ob("C04-R2", "ParserBase::reset/covers-every-step", ok, e.loc, pr_, detail)
 
     # ---------------- R2 ----------------
-    parse_roots = prog.find(PB + "parse", 1) + prog.find(PB + "feed", 1)
+    # what is written while a message is being received: by the parser (parse / feed) and by the per-connection routines that drive it
+    # (the server's Handler::onInput, the client's Connection::handleResponsePacket), which may keep parser-owned state of their own
+    parse_roots = prog.find(PB + "parse", 1) + prog.find(PB + "feed", 1) + prog.find(H + "Handler::onInput", 1) + \
+        prog.find(H + "Experimental::Connection::handleResponsePacket", 1)
     wparse, reach = lib.transitive_writes(prog, parse_roots)
     ck.require(len(reach) > 40, "call graph from ParserBase::parse too small (%d functions)" % len(reach))
     applies = [x for x in reach.values() if x[0].base.endswith("Step::apply")]
